@@ -61,6 +61,64 @@ fn lib_eval(ev: &mut RpslEvaluator, expr: &str) -> Result<Vec<String>, String> {
     }
 }
 
+/// Evaluate `expr` with the `bgpfu` executable (child process) against FakeIrrd on a loopback
+/// TCP socket: Ok(sorted output lines) or Err(stderr tail).
+fn cli_eval(irr: &SharedIrr, expr: &str) -> Result<Result<Vec<String>, String>, String> {
+    use std::io::Read;
+    use std::process::{Command, Stdio};
+    use std::sync::atomic::{AtomicBool, Ordering};
+    let stop = Arc::new(AtomicBool::new(false));
+    let (port, server) = crate::irrd::serve_tcp(irr.clone(), stop.clone()).map_err(|e| format!("FakeIrrd listen: {e}"))?;
+    let exe = std::env::current_exe().expect("exe").with_file_name("bgpfubin");
+    let mut child = Command::new(&exe)
+        .env_clear()
+        .args(["-H", "127.0.0.1", "-P", &port.to_string(), "--", expr])
+        .stdin(Stdio::null())
+        .stdout(Stdio::piped())
+        .stderr(Stdio::piped())
+        .spawn()
+        .map_err(|e| format!("spawn {exe:?}: {e}"))?;
+    let (mut so, mut se) = (child.stdout.take().expect("stdout"), child.stderr.take().expect("stderr"));
+    let t_out = std::thread::spawn(move || {
+        let mut v = String::new();
+        let _ = so.read_to_string(&mut v);
+        v
+    });
+    let t_err = std::thread::spawn(move || {
+        let mut v = String::new();
+        let _ = se.read_to_string(&mut v);
+        v
+    });
+    let started = std::time::Instant::now();
+    let status = loop {
+        match child.try_wait() {
+            Ok(Some(s)) => break Some(s),
+            Ok(None) if started.elapsed() > std::time::Duration::from_secs(15) => {
+                let _ = child.kill();
+                let _ = child.wait();
+                break None;
+            }
+            Ok(None) => {
+                crate::core::beat();
+                std::thread::sleep(std::time::Duration::from_millis(1));
+            }
+            Err(e) => return Err(format!("wait: {e}")),
+        }
+    };
+    stop.store(true, Ordering::Relaxed);
+    let _ = server.join();
+    let (out, err) = (t_out.join().unwrap_or_default(), t_err.join().unwrap_or_default());
+    match status {
+        None => Ok(Err("STUCK: the bgpfu process was still running after 15 s".into())),
+        Some(s) if s.success() => {
+            let mut v: Vec<String> = out.lines().map(str::to_string).collect();
+            v.sort();
+            Ok(Ok(v))
+        }
+        Some(_) => Ok(Err(err.lines().last().unwrap_or("").chars().take(300).collect())),
+    }
+}
+
 fn run_c11(ctx: &mut Ctx) -> Verdict {
     crate::ssim::quiet_panics();
     let cfg = db_cfg(ctx);
@@ -73,18 +131,43 @@ fn run_c11(ctx: &mut Ctx) -> Verdict {
     ev!(ctx, "db {}", describe(&db).chars().take(3000).collect::<String>());
     ev!(ctx, "expr {expr}");
     let want = reference_eval(&db, &expr);
+    // one run in 16: the `bgpfu` executable over a real loopback TCP connection
+    let via_cli = cfg.max_as <= 1000 && ctx.chance(1, 16);
     let irr = setup_irr(ctx, db);
-    let got = match RpslEvaluator::new("irrd.sim", 43) {
-        Ok(mut e) => {
-            let r = lib_eval(&mut e, &expr);
-            drop(e);
-            r
+    let got = if via_cli {
+        uninstall();
+        ctx.count("runs.bgpfu_executable_over_tcp");
+        match cli_eval(&irr, &expr) {
+            Ok(r) => r,
+            Err(e) => return Verdict::violation("harness-error", e),
         }
-        Err(e) => Err(format!("connect: {e}")),
+    } else {
+        match RpslEvaluator::new("irrd.sim", 43) {
+            Ok(mut e) => {
+                let r = lib_eval(&mut e, &expr);
+                drop(e);
+                r
+            }
+            Err(e) => Err(format!("connect: {e}")),
+        }
     };
     uninstall();
+    if via_cli {
+        if let Err(g) = &got {
+            if g.starts_with("STUCK") {
+                return Verdict::violation("cli-stuck", format!("expression {expr}: {g}"));
+            }
+        }
+    }
     let st = irr.lock().unwrap();
-    ev!(ctx, "queries {:?}", st.queries.iter().take(60).collect::<Vec<_>>());
+    if via_cli {
+        // the child process has its own (random) hash seeds: the order of its pipelined queries is not part of the event log
+        let mut q: Vec<&String> = st.queries.iter().collect();
+        q.sort();
+        ev!(ctx, "queries of the bgpfu process (sorted) {:?}", q.iter().take(60).collect::<Vec<_>>());
+    } else {
+        ev!(ctx, "queries {:?}", st.queries.iter().take(60).collect::<Vec<_>>());
+    }
     ctx.count_n("net.short_read", st.short_reads as u64);
     ctx.count_n("net.partial_write", st.partial_writes as u64);
     if st.queries.len() > 1000 {
@@ -210,6 +293,15 @@ const COMPONENTS: &[(&str, &str)] = &[
     ("IRRd", "model: FakeIrrd over a generated database"),
 ];
 
+const COMPONENTS_C11: &[(&str, &str)] = &[
+    ("bgpfu-lib query.rs (RpslEvaluator, resolvers)", "real"),
+    ("rpsl expression evaluation, generic-ip set algebra", "real (trusted: also used by the reference)"),
+    ("irrc pipeline, queue, response parser", "real (vendored copy; only the socket is replaced)"),
+    ("irrc TCP socket", "15 runs in 16: stub (in-memory stream with seeded short reads and partial writes); 1 run in 16: real loopback TCP"),
+    ("cli/src/cli.rs + cli/src/bin/bgpfu.rs (argument parsing, evaluation, printing of the ranges)", "real, 1 run in 16: target/release/bgpfubin (the repository's bin source) as a child process; its stdout is compared with the reference"),
+    ("IRRd", "model: FakeIrrd over a generated database (in-memory, or served on a loopback TCP socket with seeded response segmentation)"),
+];
+
 pub static C11: PropSpec = PropSpec {
     id: "C11",
     simulator: "I-sim",
@@ -217,12 +309,13 @@ pub static C11: PropSpec = PropSpec {
     runs: |t| if t == Tier::Thorough { 4_000_000 } else { 30_000 },
     enumerated: |_| 0,
     run: run_c11,
-    rule: "generated IRR database (nested and cyclic as-sets, hierarchical names, unknown nested sets, ASes with only IPv4 / only IPv6 / no routes, duplicate prefixes, nested route-sets, filter-sets referring to other names; thorough: an as-set with up to 2600 members, crossing irrc's 1000-in-flight window) and an mp-filter expression over its names (AND/OR/NOT, parentheses, literal prefix sets, all range operators, occasionally unknown names); responses are cut by seeded read sizes (1-7 bytes / mixed / whole) and writes may be partial. Oracle: ranges equal the reference evaluation (rpsl's evaluator over a resolver that reads the database directly). Non-trivial = the reference set is non-empty; distinct = distinct event-log hash",
-    components: COMPONENTS,
+    rule: "generated IRR database (nested and cyclic as-sets, hierarchical names, unknown nested sets, ASes with only IPv4 / only IPv6 / no routes, duplicate prefixes, nested route-sets, filter-sets referring to other names; thorough: an as-set with up to 2600 members, crossing irrc's 1000-in-flight window) and an mp-filter expression over its names (AND/OR/NOT, parentheses, literal prefix sets, all range operators, occasionally unknown names); responses are cut by seeded read sizes (1-7 bytes / mixed / whole) and writes may be partial. One run in 16 evaluates through the `bgpfu` executable (child process, loopback TCP to FakeIrrd) and compares its printed ranges. Oracle: ranges equal the reference evaluation (rpsl's evaluator over a resolver that reads the database directly). Non-trivial = the reference set is non-empty; distinct = distinct event-log hash",
+    components: COMPONENTS_C11,
     assumptions: &[
         "rpsl expression semantics and generic-ip set algebra are trusted (used on both sides)",
         "as defined by bgpfu-lib, an unknown route-set or filter-set denotes the empty set, an unknown as-set makes the evaluation fail",
         "the agent half (installed filters equal the same set split by family) is checked by C01",
+        "the bgpfu child process runs on the real clock and with its own hash seeds; only its output and the sorted list of its queries enter the event log, and a process still running after 15 s is reported as cli-stuck",
     ],
     watchdog_s: 60,
     stuck_is_verdict: false,
